@@ -187,8 +187,38 @@ def pollute(name, rnd):
             e.rewrite(rewrite)
 
 
+SHARED_FUNCS = ["absolute", "acosh", "asin", "atanh", "log1p", "sqrt", "exp", "square"]
+SHARED_TARGETS = ["python", "numpy", "stablehlo", "cpp"]  # targets that share the default context flavour (xla_client wants the alternative constant context)
+
+
+def shared_context(pairs):
+    """one Context, one traced graph, printed for target A and then for target B: B's text against B's text from a context of its own"""
+    out = {}
+    for fname, a, b in pairs:
+        func = getattr(fa.algorithms, fname)
+        try:
+            with contextlib.redirect_stdout(io.StringIO()):
+                ctx = fa.Context(paths=[fa.algorithms])
+                g = ctx.trace(func, ":complex")
+                ta = g.rewrite(getattr(fa.targets, a), rewrite).tostring(getattr(fa.targets, a))
+                tb = g.rewrite(getattr(fa.targets, b), rewrite).tostring(getattr(fa.targets, b))
+                ctx2 = fa.Context(paths=[fa.algorithms])
+                alone = ctx2.trace(func, ":complex").rewrite(getattr(fa.targets, b), rewrite).tostring(getattr(fa.targets, b))
+        except NotImplementedError:
+            out[f"{fname}|{a}|{b}"] = dict(refused=True)
+            continue
+        except Exception as e:
+            out[f"{fname}|{a}|{b}"] = dict(error=f"{type(e).__name__}: {e}"[:300])
+            continue
+        out[f"{fname}|{a}|{b}"] = dict(same=tb == alone, after=tb if tb != alone else "", alone=alone if tb != alone else "")
+    return out
+
+
 def main():
     h = json.loads(sys.argv[1])
+    if "shared_context" in h:
+        print(json.dumps(dict(shared=shared_context(h["shared_context"]))))
+        return
     keys = h.get("keys") or all_keys()
     rnd = random.Random(h.get("order", "sorted"))
     order = h.get("order", "sorted")
